@@ -424,6 +424,8 @@ func (w *writer) field(depth int, kw string, f *Field) {
 		}
 		if leaf.KeyPrimary {
 			body = append(body, itemPrefix+"entity.primaryKey = true")
+		} else if leaf.KeyPrimaryFalse {
+			body = append(body, itemPrefix+"entity.primaryKey = false")
 		}
 		if leaf.KeyTenant != "" {
 			body = append(body, itemPrefix+"entity.tenantKey = "+q(leaf.KeyTenant))
